@@ -25,12 +25,12 @@ func init() {
 			"a porcupine timeout (60 s per history) is inconclusive, never a violation", "all buffers obtained during a history stay pinned so a storage address identifies one storage"},
 		Plan: func(tier string) []Batch {
 			var bs []Batch
-			for _, b := range split("race", 4, 2400) {
+			for _, b := range split("race", 4, 900) {
 				b.Race = true
 				b.Weight = 4
 				bs = append(bs, b)
 			}
-			for _, b := range split("plain", 4, 2400) {
+			for _, b := range split("plain", 4, 900) {
 				b.Weight = 4
 				bs = append(bs, b)
 			}
@@ -109,6 +109,16 @@ func runC11(c *core.Ctx) {
 		if r.Bool() {
 			cf.Alloc.Length = capFrames
 		}
+		if ci%8 == 3 {
+			// more than 65536 samples per buffer: paths that depend on the size
+			cf.Alloc = signal.Allocator{Channels: 2, Capacity: r.Range(33000, 40000)}
+			if r.Bool() {
+				cf.Alloc.Length = cf.Alloc.Capacity
+			}
+			cf.G = min(cf.G, 8)
+			cf.GCEvery = 0
+			c.Obs("configurations_with_more_than_65536_samples", 1)
+		}
 		if ci%8 == 6 {
 			// allocator without storage (zero capacity or zero channels): the
 			// buffers are bare headers; ownership is then tracked by the header
@@ -124,6 +134,9 @@ func runC11(c *core.Ctx) {
 			total = c.Pick(4000, 20000)
 		}
 		cf.M = max(4, total/cf.G)
+		if cf.Alloc.Channels*cf.Alloc.Capacity > 65536 {
+			cf.M = max(4, c.Pick(120, 400)/cf.G) // every cycle touches >10^5 samples several times
+		}
 		cf.GCEvery = r.Pick(0, 37, 101)
 		// every buffer of a history stays pinned: bound the memory that the
 		// re-creation after forced GCs can consume (<= ~256 MB per history)
@@ -150,6 +163,7 @@ func runC11(c *core.Ctx) {
 		}
 	}
 	c.Floor("configurations_with_storage_less_allocator", 1)
+	c.Floor("configurations_with_more_than_65536_samples", 1)
 	c.Floor("handoffs_between_goroutines", 50)
 	c.Floor("gets_returning_a_previously_put_storage", 100)
 	c.Floor("histories_checked_by_porcupine", 1)
